@@ -277,3 +277,64 @@ FAMILIES = [
            shard=2, case_timeout=60, workers=6),
 ]
 FAMILIES[0].post_model = post_model
+
+
+# ---- acknowledged while another thread is busy in a slow destination -------------------------------
+def gen_busy(rng, tier):
+    return [{"n_before": rng.randrange(0, 3), "n_main": rng.randrange(1, 4), "order": rng.choice(["file_first", "slow_first"])}
+            for _ in range(6 if tier == "quick" else 60)]
+
+
+def impl_busy(case):
+    """thread A is stuck inside a slow destination; every logging call the main thread completes meanwhile
+    must already be in the file when it returns (a crash right then must not lose it)"""
+    import io, threading
+    from eliot import log_message, FileDestination, _output
+    d = _output.Destinations()
+    _output.Logger._destinations = d
+    f = io.BytesIO()
+    inside, release = threading.Event(), threading.Event()
+    a_ident = []
+
+    def slow(message):
+        if a_ident and threading.get_ident() == a_ident[0] and message.get("who") == "A":
+            inside.set()
+            release.wait(20)
+    fd = FileDestination(file=f)
+    if case["order"] == "file_first":
+        d.add(fd, slow)
+    else:
+        d.add(slow, fd)
+    for i in range(case["n_before"]):
+        log_message(message_type="before", n=i)
+
+    def a_body():
+        a_ident.append(threading.get_ident())
+        log_message(message_type="slow", who="A")
+    t = threading.Thread(target=a_body, daemon=True)
+    t.start()
+    ok = inside.wait(20)
+    seen = []
+    for i in range(case["n_main"]):
+        log_message(message_type="acked", n=i)
+        lines = f.getvalue().split(b"\n")
+        seen.append(sum(1 for ln in lines[:-1] if b'"acked"' in ln))
+    release.set()
+    t.join(20)
+    return {"a_inside": ok, "acked_on_disk_after_each_call": seen, "tail_complete": f.getvalue().endswith(b"\n")}
+
+
+def oracle_busy(case, obs):
+    if not obs["a_inside"]:
+        return "thread A never reached the slow destination"
+    want = list(range(1, case["n_main"] + 1))
+    if obs["acked_on_disk_after_each_call"] != want:
+        return "complete lines of acknowledged messages on disk after each returned call: %r, expected %r" % (
+            obs["acked_on_disk_after_each_call"], want)
+    if not obs["tail_complete"]:
+        return "file does not end with a complete line between logging calls"
+    return None
+
+
+FAMILIES.append(Family("ack_while_busy", gen_busy, impl_busy, None, None, oracle_busy,
+                       lambda case, obs: json.dumps(case), shard=2, case_timeout=90, workers=6))
